@@ -206,6 +206,9 @@ pub(crate) struct Kademlia {
 impl Kademlia {
     /// `node` area: what this constructed object holds (read-only).
     fn verif_note(&self) {
+        if !crate::verif::config_notes_enabled() {
+            return;
+        }
         let store = self.store.verif_config();
         let (engine_rf, engine_pf) = self.engine.verif_factors();
         crate::verif::note_config(
